@@ -191,7 +191,30 @@ pub fn check(case: &C07Case, st: &mut Stats) -> Verdict {
             st.sub(1);
             let out = sut::present_raw(&mut holder, selection, args);
             st.label(&format!("create_presentation={}", out.kind()));
-            no_panic("create_presentation", &format!("{}\n  selection: {}\n  args: {:?}", input, Value::Object(selection.clone()), args), &out)
+            no_panic("create_presentation", &format!("{}\n  selection: {}\n  args: {:?}", input, Value::Object(selection.clone()), args), &out)?;
+            // the same holder instance goes on serving calls: the narrowing selection (or nothing),
+            // everything, and the first selection again — whatever the first call did or left behind
+            let plain = RawPresentArgs { nonce: None, aud: None, key: crate::keys::HolderKey::None, sign_alg: None };
+            let mut later: Vec<(Map<String, Value>, &RawPresentArgs)> = vec![];
+            match narrow_first {
+                Some(Value::Object(n)) => later.push((n.clone(), &plain)),
+                _ => later.push((Map::new(), &plain)),
+            }
+            if let Ok(tree) = crate::tree::mark(&issue.claims, &issue.strat) {
+                later.push((crate::tree::select_all(&tree), args));
+            }
+            later.push((selection.clone(), &plain));
+            for (k, (sel, a)) in later.iter().enumerate() {
+                st.sub(1);
+                let o = sut::present_raw(&mut holder, sel, a);
+                st.label("further_call_on_the_same_holder");
+                no_panic(
+                    "create_presentation",
+                    &format!("{}\n  call {} on the same holder instance\n  first selection: {}\n  this selection: {}\n  args: {:?}", input, k + 2, Value::Object(selection.clone()), Value::Object(sel.clone()), a),
+                    &o,
+                )?;
+            }
+            Ok(())
         }
         C07Case::Issue { alg_name, key_alg, claims, strat, holder, decoys, fmt } => {
             st.label("class=f:issuer_input");
